@@ -21,7 +21,7 @@ def run(ctx):
     idx = root_indices(tags=["r0", "perft", "nb"])
     if quick:
         idx = [r for k, r in enumerate(idx) if (k + ctx.seed) % 4 == 0]
-    res = ctx.tlc("ChessMC", "ChessMC_search.cfg", env={"VERIF_DEPTH": 1, "VERIF_ROOTSEL": write_sel(ctx, idx, "mirror"),
+    res = ctx.tlc("ChessMC", "ChessMC_search.cfg", env={"VERIF_DEPTH": 1 if quick else 2, "VERIF_ROOTSEL": write_sel(ctx, idx, "mirror"),
                                                        "VERIF_KEYS": ctx.keys()}, workers=NCPU, timeout=3000, name="mirror-gen")
     if ctx.tlc_hard_errors(res) or res["violated"]:
         raise ToolError("TLC failed generating mirror pairs: %s" % (res["errors"] + res["violated"])[:3])
@@ -71,7 +71,7 @@ def run(ctx):
     def one(a):
         i, p = a
         tr = os.path.join(ctx.work, "mirror-%d.ndjson" % i)
-        h = ctx.harness(["replay-search", "--mirror", "--polls", 2500 if quick else 40000, "--out", tr], stdin_path=p.name, timeout=3000)
+        h = ctx.harness(["replay-search", "--mirror", "--polls", 2500 if quick else 60000, "--out", tr], stdin_path=p.name, timeout=3000)
         nl = validate_search_trace(ctx, tr, "mirror-%d" % i) if os.path.getsize(tr) else 0
         return h, tr, nl
 
